@@ -429,6 +429,32 @@ theorem expect_in_teardown_wins (live : List Nat) (t : Test) (td : List Cmd) (n 
   unfold hPhase at hna ⊢
   exact expect_last_wins _ td n hna
 
+/-! ## declarations_reach_first_plugin -/
+
+/-- However many further plugin objects a process constructs (and destroys or keeps) after the
+    installed one, `firstPlugin_` keeps pointing to the installed plugin, so every
+    `EXPECT_N_LEAKS` / `IGNORE_ALL_LEAKS_IN_TEST` of a test reaches the plugin that judges the test:
+    a declaration acts on the installed plugin's state exactly as `execCmd` says. -/
+theorem declarations_reach_first_plugin (overloads : Bool) (ops : List ProcOp) :
+    (ops.foldl Proc.step (Proc.init overloads)).first = .installed ∧
+      ∀ (p : Proc), p.first = .installed → ∀ c, (p.execCmd c).w = execCmd p.w c := by
+  constructor
+  · have h0 : (Proc.init overloads).first = .installed := rfl
+    generalize Proc.init overloads = p at h0
+    induction ops generalizing p with
+    | nil => exact h0
+    | cons op ops ih =>
+      apply ih
+      cases op with
+      | constructOther => simp [Proc.step, afterConstruct, Gen.LeakCode.firstPluginSetOnlyIfNull, h0]
+      | destroyOther => exact h0
+  · intro p hp c
+    cases c <;> simp [Proc.execCmd, hp]
+
+/-- the plugin objects constructed later never change the installed plugin's state -/
+theorem other_plugins_leave_world (p : Proc) (op : ProcOp) : (p.step op).w = p.w := by
+  cases op <;> rfl
+
 /-! ## FinalReport, the overload switches, destroyGlobalDetector -/
 
 theorem finalReport_is_FinalReport_zero (w : World) : finalReport w = finalReportN w 0 := rfl
